@@ -30,8 +30,8 @@ TUS = [
     ("asmjit/core/codeholder.cpp", ["CodeHolder", "Section", "Entry", "Fixup"]),
     ("asmjit/core/emitter.cpp", ["BaseEmitter"]),
     ("asmjit/core/assembler.cpp", ["BaseAssembler"]),
-    ("asmjit/core/builder.cpp", ["BaseBuilder", "NodeList"]),
-    ("asmjit/core/compiler.cpp", ["BaseCompiler"]),
+    ("asmjit/core/builder.cpp", ["BaseBuilder", "NodeList", "Node"]),
+    ("asmjit/core/compiler.cpp", ["BaseCompiler", "Node"]),
     ("asmjit/core/rapass.cpp", ["RAPass"]),
     ("asmjit/x86/x86rapass.cpp", ["RAPass"]),
     ("asmjit/arm/a64rapass.cpp", ["RAPass"]),
@@ -47,7 +47,10 @@ TUS = [
 CLASSES = ["CodeHolder", "BaseEmitter", "BaseAssembler", "BaseBuilder", "BaseCompiler", "BaseRAPass",
            "SectionOrLabelEntryExtraHeader", "Section", "Arena", "NodeList",
            "x86::Assembler", "x86::Builder", "x86::Compiler", "a64::Assembler", "a64::Builder", "a64::Compiler",
-           "x86::X86RAPass", "a64::ARMRAPass", "RelocEntry", "AddressTableEntry", "Fixup"]
+           "x86::X86RAPass", "a64::ARMRAPass", "RelocEntry", "AddressTableEntry", "Fixup",
+           "LabelEntry", "LabelEntry::ExtraData", "CodeHolder::NamedLabelExtraData",
+           "BaseNode", "InstNode", "SectionNode", "LabelNode", "AlignNode", "EmbedDataNode", "EmbedLabelNode", "EmbedLabelDeltaNode",
+           "ConstPoolNode", "CommentNode", "SentinelNode", "JumpNode", "FuncNode", "FuncRetNode", "InvokeNode"]
 FUNC_KINDS = ("FunctionDecl", "CXXMethodDecl", "CXXConstructorDecl", "CXXDestructorDecl")
 
 
@@ -112,6 +115,7 @@ def field_chain(e):
     subs = []
     e = strip_casts(e)
     top = None
+    obj = "expr"
     while isinstance(e, dict):
         k = e.get("kind")
         if k == "MemberExpr":
@@ -124,6 +128,7 @@ def field_chain(e):
                 subs.append("." + e.get("name"))
                 e = base
                 continue
+            obj = root_object(base)
             break
         elif k == "ArraySubscriptExpr":
             inner = e.get("inner") or []
@@ -144,7 +149,57 @@ def field_chain(e):
             return None
     if top is None:
         return None
-    return (top[0], top[1], "".join(reversed(subs)))
+    return (top[0], top[1], "".join(reversed(subs)), obj)
+
+
+def root_object(b):
+    """the object a member is selected from: this / param:<name> / var:<name> / expr"""
+    b = strip_casts(b)
+    while isinstance(b, dict) and b.get("kind") == "UnaryOperator" and b.get("opcode") in ("*", "&"):
+        b = strip_casts((b.get("inner") or [None])[0])
+    if not isinstance(b, dict):
+        return "expr"
+    if b.get("kind") == "CXXThisExpr":
+        return "this"
+    if b.get("kind") == "DeclRefExpr":
+        rd = b.get("referencedDecl", {})
+        if rd.get("kind") == "ParmVarDecl":
+            return "param:" + rd.get("name", "?")
+        if rd.get("kind") == "VarDecl":
+            return "var:" + rd.get("name", "?")
+    return "expr"
+
+
+def render(e, depth=0):
+    """small deterministic printer for guard conditions (names only, no types, no source text)"""
+    e = strip_casts(e)
+    if not isinstance(e, dict) or depth > 6:
+        return "?"
+    k = e.get("kind")
+    inner = e.get("inner") or []
+    if k == "DeclRefExpr":
+        return e.get("referencedDecl", {}).get("name", "?")
+    if k == "CXXThisExpr":
+        return "this"
+    if k == "MemberExpr":
+        base = strip_casts(inner[0]) if inner else None
+        if isinstance(base, dict) and base.get("kind") == "CXXThisExpr":
+            return e.get("name", "?")
+        return render(base, depth + 1) + "." + e.get("name", "?")
+    if k in ("CXXMemberCallExpr", "CallExpr"):
+        return render(inner[0], depth + 1) + "(" + ",".join(render(a, depth + 1) for a in inner[1:]) + ")" if inner else "call"
+    if k == "UnaryOperator":
+        return e.get("opcode", "?") + render(inner[0], depth + 1) if inner else "?"
+    if k == "BinaryOperator":
+        return "(" + render(inner[0], depth + 1) + " " + e.get("opcode", "?") + " " + render(inner[1], depth + 1) + ")" if len(inner) > 1 else "?"
+    if k == "CXXOperatorCallExpr" and len(inner) >= 2:
+        opn = strip_casts(inner[0]).get("referencedDecl", {}).get("name", "op")
+        return opn + "(" + ",".join(render(a, depth + 1) for a in inner[1:]) + ")"
+    if k in ("IntegerLiteral", "CXXBoolLiteralExpr"):
+        return str(e.get("value"))
+    if k == "CXXNullPtrLiteralExpr":
+        return "nullptr"
+    return k or "?"
 
 
 def lambda_calls(n, out):
@@ -170,30 +225,58 @@ def find_lambda(n):
     return None
 
 
-def walk_body(n, writes, calls):
+def walk_body(n, writes, calls, guard=()):
     if not isinstance(n, dict):
         return
     k = n.get("kind")
     inner = n.get("inner") or []
+    gtxt = " && ".join(guard)
+    # control flow: what is written below a condition / inside a loop carries the condition as its guard
+    if k == "IfStmt" and len(inner) >= 2:
+        parts = [c for c in inner if isinstance(c, dict)]
+        cond = parts[0]
+        # (an init-statement / condition variable would shift the positions; asmjit's reset code has none: fall back to "if")
+        ctext = render(cond) if len(parts) in (2, 3) else "if"
+        walk_body(cond, writes, calls, guard)
+        walk_body(parts[1], writes, calls, guard + (ctext,))
+        if len(parts) > 2:
+            walk_body(parts[2], writes, calls, guard + ("!" + ctext,))
+        return
+    if k == "WhileStmt" and len(inner) >= 2:
+        walk_body(inner[0], writes, calls, guard)
+        walk_body(inner[-1], writes, calls, guard + ("while " + render(inner[0]),))
+        return
+    if k == "DoStmt" and len(inner) >= 2:
+        c = render(inner[1])
+        walk_body(inner[0], writes, calls, guard if c in ("0", "false") else guard + ("do-while " + c,))     # do { } while (0): macro idiom
+        return
+    if k in ("ForStmt", "CXXForRangeStmt", "SwitchStmt", "ConditionalOperator"):
+        for c in inner:
+            walk_body(c, writes, calls, guard + (k,))
+        return
+    if k == "LambdaExpr":
+        for c in inner:
+            walk_body(c, writes, calls, guard + ("lambda",))
+        return
     if k == "BinaryOperator" and n.get("opcode") == "=" and inner:
         fc = field_chain(inner[0])
         if fc:
-            writes.append(fc + ("assign",))
+            writes.append(fc[:3] + ("assign", fc[3], gtxt))
     elif k == "CompoundAssignOperator" and inner:
         fc = field_chain(inner[0])
         if fc:
-            writes.append(fc + ("compound:" + str(n.get("opcode")),))
+            writes.append(fc[:3] + ("compound:" + str(n.get("opcode")), fc[3], gtxt))
     elif k == "CXXOperatorCallExpr" and len(inner) >= 2:
         cal = strip_casts(inner[0])
         opn = cal.get("referencedDecl", {}).get("name", "") if isinstance(cal, dict) else ""
         if opn == "operator=":
             fc = field_chain(inner[1])
             if fc:
-                writes.append(fc + ("assign",))
+                writes.append(fc[:3] + ("assign", fc[3], gtxt))
         elif opn.startswith("operator") and opn.endswith("=") and opn not in ("operator==", "operator!=", "operator<=", "operator>="):
             fc = field_chain(inner[1])
             if fc:
-                writes.append(fc + ("compound:" + opn[len("operator"):],))
+                writes.append(fc[:3] + ("compound:" + opn[len("operator"):], fc[3], gtxt))
     elif k == "CXXMemberCallExpr" and inner:
         cal = inner[0]
         if isinstance(cal, dict) and cal.get("kind") == "MemberExpr":
@@ -210,7 +293,7 @@ def walk_body(n, writes, calls):
                     lambda_calls(lam, ms)
                     if ms:
                         how += ":" + "+".join(sorted(set(ms)))
-                writes.append(fc + (how,))
+                writes.append(fc[:3] + (how, fc[3], gtxt))
             else:
                 cls = first_child_type(cal)
                 if cls:
@@ -224,18 +307,22 @@ def walk_body(n, writes, calls):
                 if len(inner) > 1:
                     fc = field_chain(inner[1])
                     if fc:
-                        writes.append(fc + ("arg:" + fn,))
-    elif k == "CXXConstructExpr":
-        pass
+                        writes.append(fc[:3] + ("arg:" + fn, fc[3], gtxt))
+    elif k == "InitListExpr" and inner:
+        # aggregate initialisation T{a, b, ...}: one initialiser per member, in declaration order (resolved to names later)
+        cls = clean_type(n.get("type", {}).get("desugaredQualType") or n.get("type", {}).get("qualType", ""))
+        if cls:
+            for i in range(len(inner)):
+                writes.append((cls, "#%d" % i, "", "assign", "init-list", gtxt))
     for c in inner:
-        walk_body(c, writes, calls)
+        walk_body(c, writes, calls, guard)
 
 
 def ctor_inits(fn, cls, writes):
     """constructor member initialisers count as assignments of the constructed class"""
     for c in fn.get("inner") or []:
         if c.get("kind") == "CXXCtorInitializer" and "anyInit" in c:
-            writes.append((cls, c["anyInit"].get("name"), "", "assign"))
+            writes.append((cls, c["anyInit"].get("name"), "", "assign", "this", ""))
 
 
 def demangle_all(names):
@@ -294,7 +381,37 @@ def run(repo):
             f = funcs.setdefault(k, {"writes": set(), "calls": set()})
             f["writes"].update(v["writes"])
             f["calls"].update(v["calls"])
+    resolve_names(classes, funcs)
     return classes, funcs
+
+
+def resolve_names(classes, funcs):
+    """(1) a write through an anonymous union/struct member (member name "") is attributed to the anonymous member that
+    declares the first named component of the path; (2) init-list positions "#i" become member names."""
+    groups = {}
+    for c, v in classes.items():
+        for f, _t in v["fields"]:
+            if f.startswith("anon:"):
+                for ind in f[5:].split("+"):
+                    groups[(c, ind)] = f
+    for f in funcs.values():
+        ws = set()
+        for w in f["writes"]:
+            cls, fld, sub, how, obj, g = w
+            if fld == "" or fld is None:
+                comps = [x for x in re.split(r"[.\[]", sub) if x]
+                first = comps[0] if comps else ""
+                grp = groups.get((cls, first))
+                if grp:
+                    fld = grp
+                    sub = "." + sub.lstrip(".")
+            elif fld.startswith("#") and cls in classes:
+                i = int(fld[1:])
+                fl = classes[cls]["fields"]
+                if i < len(fl):
+                    fld = fl[i][0]
+            ws.add((cls, fld, sub, how, obj, g))
+        f["writes"] = ws
 
 
 def collect_scoped(objs, classes, funcs, dem):
@@ -320,8 +437,18 @@ def collect_scoped(objs, classes, funcs, dem):
         if k == "CXXRecordDecl" and n.get("name"):
             if n.get("completeDefinition") and n.get("inner"):
                 q = record_qual(n, scope)
-                fields = [(c.get("name"), c.get("type", {}).get("qualType", "")) for c in n["inner"]
-                          if c.get("kind") == "FieldDecl" and c.get("name")]
+                fields = []
+                anon = None
+                for c in n["inner"]:
+                    if c.get("kind") == "FieldDecl" and c.get("name"):
+                        fields.append([c.get("name"), c.get("type", {}).get("qualType", "")])
+                        anon = None
+                    elif c.get("kind") == "FieldDecl":           # anonymous union/struct member: named after its indirect members
+                        anon = ["anon:", "anonymous"]
+                        fields.append(anon)
+                    elif c.get("kind") == "IndirectFieldDecl" and anon is not None:
+                        anon[0] += ("" if anon[0] == "anon:" else "+") + c.get("name", "?")
+                fields = [tuple(f) for f in fields]
                 bases = [clean_type(b.get("type", {}).get("desugaredQualType") or b.get("type", {}).get("qualType", ""))
                          for b in n.get("bases", [])]
                 if q not in classes or len(fields) >= len(classes[q]["fields"]):
@@ -350,6 +477,45 @@ def collect_scoped(objs, classes, funcs, dem):
 
     for o in objs:
         visit(o, "")
+
+
+PROBE_CLASSES = ["CodeHolder", "BaseEmitter", "BaseAssembler", "BaseBuilder", "BaseCompiler"]
+# members whose representation legitimately differs from a fresh object (retained resources / conservative cache flag); each is on
+# the reviewed persistent list of ResetSpec.v or is a container of retained memory
+PROBE_SKIP = {("BaseBuilder", "_dirty_section_links"),
+              # the Assembler's cursor into the .text buffer: after a soft reset / reinit the buffer memory is retained (non-null,
+              # size 0) while a fresh holder has none yet; the offset itself is part of the dump (off=)
+              ("BaseAssembler", "_buffer_data"), ("BaseAssembler", "_buffer_end"), ("BaseAssembler", "_buffer_ptr")}
+
+
+def member_kind(cls, name, ty):
+    t = ty.replace("asmjit::", "")
+    if (cls, name) in PROBE_SKIP:
+        return "K_SKIP"
+    if t.startswith("ArenaVector<"):
+        return "K_VEC"
+    if t.startswith("ArenaHash<"):
+        return "K_HASH"
+    if t.startswith("ArenaTree<"):
+        return "K_PTRS"          # a single root pointer
+    if t.startswith(("Arena", "ArenaPool")) or t in ("Section", "Arena"):
+        return "K_SKIP"
+    if t == "NodeList" or re.search(r"\*\s*\[\d+\]$", t):
+        return "K_PTRS"
+    if t.endswith("*"):
+        return "K_PTR"
+    return "K_BYTES"
+
+
+def members_inc(classes):
+    """C++ table (X-macro) of the data members of the probed classes, generated from the SAME member lists as ResetFields.v"""
+    out = ["// GENERATED by tools/c16_fields.py -- member table for the representation probe of harness/c16_harness.cpp"]
+    for c in PROBE_CLASSES:
+        for f, ty in classes.get(c, {}).get("fields", []):
+            if f.startswith("anon:"):
+                continue
+            out.append("C16_MEMBER(%s, %s, %s)" % (c, f, member_kind(c, f, ty)))
+    return "\n".join(out) + "\n"
 
 
 def coq_str(s):
@@ -385,7 +551,7 @@ def to_coq(classes, funcs):
             continue
         rows.append("  mk_func %s\n    [%s]\n    [%s]" % (
             coq_str(q),
-            "; ".join("mk_write %s %s %s %s" % (coq_str(a), coq_str(b), coq_str(c), coq_str(d)) for a, b, c, d in ws),
+            "; ".join("mk_write %s %s %s %s %s %s" % tuple(coq_str(x) for x in w) for w in ws),
             "; ".join(coq_str(c) for c in cs)))
     out.append(";\n".join(rows))
     out.append("].")
